@@ -264,3 +264,82 @@ pub fn verify() -> Result<usize, String> {
     }
     Ok(COLLIDING_MESSAGES.len() + COLLIDING_SECRETS.len())
 }
+
+
+// ---------------------------------------------------------------------------
+// Key streams with a zero word
+// ---------------------------------------------------------------------------
+
+/// One-off generator (`rl2tp-dst gen-keystreams`): for each of the first
+/// three 32-bit words, a (type 8, secret, random vector) whose first-chunk
+/// key stream MD5(type | secret | rv) has that word zero. About 2^32 MD5
+/// evaluations each, spread over the available cores.
+pub fn generate_keystreams() {
+    use std::sync::atomic::{AtomicBool, Ordering};
+    println!("pub const ZERO_WORD_KEYSTREAMS: &[(u16, &[u8], [u8; 4], usize)] = &[");
+    for word in 0..3usize {
+        let found = std::sync::Arc::new(AtomicBool::new(false));
+        let out = std::sync::Arc::new(std::sync::Mutex::new(None));
+        let threads = std::thread::available_parallelism().map(|n| n.get()).unwrap_or(4);
+        let mut hs = Vec::new();
+        for t in 0..threads {
+            let found = found.clone();
+            let out = out.clone();
+            hs.push(std::thread::spawn(move || {
+                let secret = format!("tunnel-secret-{:02}", word * 16 + t);
+                let mut buf = vec![0u8, 8];
+                buf.extend_from_slice(secret.as_bytes());
+                let at = buf.len();
+                buf.extend_from_slice(&[0; 4]);
+                let mut rv: u32 = 0;
+                loop {
+                    if rv & 0xFFFF == 0 && found.load(Ordering::Relaxed) {
+                        return;
+                    }
+                    buf[at..at + 4].copy_from_slice(&rv.to_be_bytes());
+                    let d = ::md5::compute(&buf).0;
+                    if d[4 * word..4 * word + 4] == [0, 0, 0, 0] {
+                        found.store(true, Ordering::Relaxed);
+                        *out.lock().unwrap() = Some((secret.clone(), rv.to_be_bytes()));
+                        return;
+                    }
+                    rv = rv.wrapping_add(1);
+                    if rv == 0 {
+                        return;
+                    }
+                }
+            }));
+        }
+        for h in hs {
+            let _ = h.join();
+        }
+        let got: Option<(String, [u8; 4])> = out.lock().unwrap().clone();
+        if let Some((s, rv)) = got {
+            println!("    (8, b\"{s}\", {:?}, {word}),", rv);
+        }
+    }
+    println!("];");
+}
+
+/// (attribute type, secret, random vector, index of the 32-bit word of
+/// MD5(type | secret | rv) that is zero): key streams that leave four
+/// octets of the first chunk unchanged. Generated by `rl2tp-dst
+/// gen-keystreams` (about 2^32 MD5 evaluations each); verified by selftest.
+pub const ZERO_WORD_KEYSTREAMS: &[(u16, &[u8], [u8; 4], usize)] = &[
+    (8, b"tunnel-secret-08", [10, 67, 118, 202], 0),
+    (8, b"tunnel-secret-18", [28, 103, 240, 203], 1),
+    (8, b"tunnel-secret-40", [3, 111, 213, 63], 2),
+];
+
+pub fn verify_keystreams() -> Result<usize, String> {
+    for (attr, secret, rv, word) in ZERO_WORD_KEYSTREAMS {
+        let mut b = attr.to_be_bytes().to_vec();
+        b.extend_from_slice(secret);
+        b.extend_from_slice(rv);
+        let d = crate::model::md5::md5(&b);
+        if d[4 * word..4 * word + 4] != [0, 0, 0, 0] {
+            return Err(format!("key stream row for word {word} has no zero word"));
+        }
+    }
+    Ok(ZERO_WORD_KEYSTREAMS.len())
+}
